@@ -72,6 +72,10 @@ pub fn gen_price(rng: &mut Rng) -> (i64, i32) {
 pub fn build_world(rng: &mut Rng) -> (World, Pubkey, Vec<BankSpec>, Pubkey) {
     crate::world::install_stubs();
     let mut w = World::new();
+        // fresh keys are hashes of a counter: a random starting point makes the relative ORDER of the keys created below (banks,
+        // accounts, vaults) differ from world to world — positions are kept sorted by bank key, and order-dependent code paths
+        // would otherwise see the same order in every world
+        w.key_counter = rng.below(1 << 40);
     let now = 1_700_000_000 + rng.range(0, 100_000_000);
     w.set_clock(now, 1000);
     let fee_admin = w.add_wallet(10_000_000_000);
@@ -396,7 +400,7 @@ pub fn fill_positions(w: &mut World, acct: &Pubkey, specs: &[BankSpec], rng: &mu
 pub fn gen(rng: &mut Rng, n: usize, out: &mut Vec<String>) {
     let mut produced = 0;
     while produced < n {
-        let (mut w, acct, specs, group) = build_world(rng);
+        let (mut w, acct, mut specs, group) = build_world(rng);
         // a quarter of the worlds: one bank's e-mode settings are cloned onto another through the REAL lending_pool_clone_emode
         // (what the engine then makes of the destination's entries is compared with the exact evaluation like everything else)
         if specs.len() >= 2 && rng.chance(1, 4) {
@@ -439,6 +443,96 @@ pub fn gen(rng: &mut Rng, n: usize, out: &mut Vec<String>) {
                 }
             }
         }
+        // directed e-mode portfolio (a third of the worlds with three banks or more): collateral in a bank carrying tag t, one debt in
+        // a bank whose e-mode configuration boosts t, a SECOND debt in a bank that has no entry at all / no entry for t / a lower
+        // entry for t — the portfolios on which the reconciliation of several borrowing banks' configurations decides the value
+        if specs.len() >= 3 && rng.chance(1, 3) {
+            let mut idx: Vec<usize> = (0..specs.len()).collect();
+            for i in (1..idx.len()).rev() { let j = rng.below(i as u64 + 1) as usize; idx.swap(i, j); }
+            let (c, d1, d2) = (specs[idx[0]].key, specs[idx[1]].key, specs[idx[2]].key);
+            // (two times out of three the three banks get plain fixed prices, so that the valuation is not cut short by one of
+            // the many broken oracles of these worlds)
+            if rng.chance(2, 3) {
+                for j in 0..3 {
+                    let k = specs[idx[j]].key;
+                    let mut b = w.bank(&k);
+                    b.config.oracle_setup = OracleSetup::Fixed;
+                    b.config.fixed_price = I80F48::from_bits(ONE / 100 + rng.below(ONE as u64 * 50) as i128).into();
+                    if b.config.asset_tag == marginfi_type_crate::constants::ASSET_TAG_DRIFT { b.config.asset_tag = marginfi_type_crate::constants::ASSET_TAG_DEFAULT; }
+                    w.set_bank(&k, &b);
+                    specs[idx[j]].pyth = None;
+                    specs[idx[j]].swb = None;
+                    specs[idx[j]].oracle_meta = None;
+                }
+            }
+            let t: u16 = 1 + rng.below(3) as u16;
+            let mut cb = w.bank(&c);
+            cb.emode.emode_tag = t;
+            cb.config.risk_tier = RiskTier::Collateral;
+            cb.config.operational_state = BankOperationalState::Operational;
+            let (bi, bm) = (bits(cb.config.asset_weight_init), bits(cb.config.asset_weight_maint));
+            w.set_bank(&c, &cb);
+            let entry = |wi: i128, wm: i128| EmodeEntry { collateral_bank_emode_tag: t, flags: 0, pad0: [0; 5], asset_weight_init: I80F48::from_bits(wi).into(), asset_weight_maint: I80F48::from_bits(wm).into() };
+            let hi_i = (bi + (ONE - bi) / 2).min(ONE);
+            let hi_m = hi_i.max(bm) + (ONE / 20);
+            for (k, which) in [(d1, 0u64), (d2, 1 + rng.below(3))] {
+                let mut b = w.bank(&k);
+                b.config.risk_tier = RiskTier::Collateral;
+                for e in b.emode.emode_config.entries.iter_mut() { *e = bytemuck::Zeroable::zeroed(); }
+                match which {
+                    0 => b.emode.emode_config.entries[9] = entry(hi_i, hi_m),                       // boosts t
+                    1 => {}                                                                           // no entry at all
+                    2 => b.emode.emode_config.entries[9] = EmodeEntry { collateral_bank_emode_tag: t % 3 + 1, ..entry(hi_i, hi_m) }, // another tag only
+                    _ => b.emode.emode_config.entries[9] = entry((bi + hi_i) / 2, (bm + hi_m) / 2),  // a lower boost for t
+                }
+                if b.emode.emode_config.entries.iter().any(|e| e.collateral_bank_emode_tag != 0) { b.emode.flags |= marginfi_type_crate::types::EMODE_ON; } else { b.emode.flags &= !marginfi_type_crate::types::EMODE_ON; }
+                w.set_bank(&k, &b);
+            }
+            let mut a = w.marginfi_account(&acct);
+            for b in a.lending_account.balances.iter_mut() { *b = bytemuck::Zeroable::zeroed(); }
+            let mut keys = [c, d1, d2];
+            keys.sort_by(|x, y| y.cmp(x));
+            for (slot, k) in keys.iter().enumerate() {
+                let bal = &mut a.lending_account.balances[slot];
+                bal.active = 1;
+                bal.bank_pk = *k;
+                if *k == c { bal.asset_shares = I80F48::from_bits(gen_shares(rng).max(ONE * 1000)).into(); } else { bal.liability_shares = I80F48::from_bits(gen_shares(rng).max(ONE)).into(); }
+            }
+            w.set_marginfi_account(&acct, &a);
+            let line = describe(&w, &acct, &specs);
+            let o = pulse_line(&w, &acct, &specs);
+            if std::env::var_os("MFI_DBG").is_some() { eprintln!("directed emode: d2<d1 {} entries d1 {} d2 {} flags {} {} => {}", d2 < d1, w.bank(&d1).emode.emode_config.entries.iter().filter(|e| e.collateral_bank_emode_tag != 0).count(), w.bank(&d2).emode.emode_config.entries.iter().filter(|e| e.collateral_bank_emode_tag != 0).count(), w.bank(&d1).emode.flags, w.bank(&d2).emode.flags, &o[..o.len().min(60)]); }
+            out.push(format!("risk.pulse {} => {}", line, o));
+            produced += 1;
+            // ... and the same at a critical debt level
+            let nums: Vec<i128> = o.split(' ').skip(1).filter_map(|t| t.parse().ok()).collect();
+            for (ai, li) in [(0usize, 1usize), (2, 3)] {
+              if o.starts_with("ok") && nums.len() >= 12 && nums[ai] > 0 && nums[li] > 0 {
+                for (fnum, fden) in [(98i128, 100i128), (102, 100)] {
+                    let mut w2 = w.clone();
+                    let mut a2 = w2.marginfi_account(&acct);
+                    for bal in a2.lending_account.balances.iter_mut().filter(|b| b.is_active()) {
+                        let l0 = bits(bal.liability_shares);
+                        if l0 > 0 {
+                            let scaled = num_bigint::BigInt::from(l0) * num_bigint::BigInt::from(nums[ai]) * num_bigint::BigInt::from(fnum) / (num_bigint::BigInt::from(nums[li]) * num_bigint::BigInt::from(fden));
+                            if let Ok(v) = i128::try_from(scaled) { if v > 0 && v < (1i128 << 100) { bal.liability_shares = I80F48::from_bits(v).into(); } }
+                        }
+                    }
+                    w2.set_marginfi_account(&acct, &a2);
+                    let line2 = describe(&w2, &acct, &specs);
+                    let o2 = pulse_line(&w2, &acct, &specs);
+                    out.push(format!("risk.pulse {} => {}", line2, o2));
+                    produced += 1;
+                    // the liquidation conditions on the same critical portfolio (pre-health placed around the current one)
+                    if o2.starts_with("ok") {
+                        let n0 = out.len();
+                        cond_lines(&w2, &acct, &specs, &line2, &o2, rng, out);
+                        produced += out.len() - n0;
+                    }
+                }
+              }
+            }
+        }
         for _ in 0..4 {
             // fresh positions on the same banks
             let mut a = w.marginfi_account(&acct);
@@ -451,6 +545,36 @@ pub fn gen(rng: &mut Rng, n: usize, out: &mut Vec<String>) {
             let o = pulse_line(&w, &acct, &specs);
             out.push(format!("risk.pulse {} => {}", line, o));
             produced += 1;
+            // critical debt level: the same collateral with the debts re-scaled so that the weighted debt lands a little below /
+            // above the weighted assets the ENGINE reports (initial or maintenance): the portfolios on which a valuation that
+            // is off by a few per cent flips the gate's or the liquidation test's verdict. The verdict itself is judged by the
+            // model as for every other line.
+            if o.starts_with("ok") && rng.chance(1, 2) {
+                let nums: Vec<i128> = o.split(' ').skip(1).filter_map(|t| t.parse().ok()).collect();
+                if nums.len() >= 12 {
+                    let maint = rng.chance(1, 3);
+                    let (av, lv) = if maint { (nums[2], nums[3]) } else { (nums[0], nums[1]) };
+                    if av > 0 && lv > 0 {
+                        let (fnum, fden): (i128, i128) = *rng.pick(&[(97, 100), (995, 1000), (1005, 1000), (103, 100), (90, 100), (110, 100)]);
+                        let mut w2 = w.clone();
+                        let mut a2 = w2.marginfi_account(&acct);
+                        for bal in a2.lending_account.balances.iter_mut().filter(|b| b.is_active()) {
+                            let l0 = bits(bal.liability_shares);
+                            if l0 > 0 {
+                                let scaled = num_bigint::BigInt::from(l0) * num_bigint::BigInt::from(av) * num_bigint::BigInt::from(fnum) / (num_bigint::BigInt::from(lv) * num_bigint::BigInt::from(fden));
+                                if let Ok(v) = i128::try_from(scaled) {
+                                    if v > 0 && v < (1i128 << 100) { bal.liability_shares = I80F48::from_bits(v).into(); }
+                                }
+                            }
+                        }
+                        w2.set_marginfi_account(&acct, &a2);
+                        let line2 = describe(&w2, &acct, &specs);
+                        let o2 = pulse_line(&w2, &acct, &specs);
+                        out.push(format!("risk.pulse {} => {}", line2, o2));
+                        produced += 1;
+                    }
+                }
+            }
             if o.starts_with("ok") && rng.chance(1, 3) {
                 if let Some(l) = start_line(&w, &acct, &specs, group, &line, rng) {
                     out.push(l);
